@@ -101,7 +101,7 @@ func (a *RtmpServerStub) onMsg(m rtmpc.Msg) {
 	step := a.K.Step()
 	switch m.Type {
 	case rtmpc.TypeAudio, rtmpc.TypeVideo, rtmpc.TypeDataAmf0:
-		a.Recv = append(a.Recv, RecvMsg{m, step})
+		a.Recv = append(a.Recv, RecvMsg{m, step, a.K.NowMs()})
 	case rtmpc.TypeCmdAmf0:
 		name, n, ok := rtmpc.AmfReadString(m.Payload)
 		if !ok {
